@@ -111,6 +111,9 @@ class SystemWZ3(Inference):
                 # no finite layer: all feasible worlds are equally plausible
                 return False
 
+            # worlds falsifying a conditional of the infinity layer are infeasible
+            for c in self.epistemic_state["partition"][-1]:
+                opt.add(c.make_not_A_or_B())
             result = self._rec_inference(
                 opt, len(self.epistemic_state["partition"]) - 2, query_z3
             )
